@@ -77,6 +77,24 @@ OrderCorrectWhenSeparated ==
 \* the clause must not be vacuous: separated pairs with different units exist (checked by coverage / an
 \* explicit witness in the cfg's companion assumption)
 ASSUME \E a, b \in [u : Unit, h : -3..3] : a.u # b.u /\ Separated(a, b)
+\* C01 / C03: the decimal tolerance model of Amount.tla (delta = 1/100 here) is SOUND for the algorithm:
+\*   convert y into x's unit:  | r*sx - hy*sy |  <=  Kd*delta*(sx + |hy|*sx + 1)
+\*   x + y (result in x's unit): the same bound (the addition itself is exact)
+\* everything in hundredths and multiplied through by the denominators dx*dy.
+ConvertWithinTolerance ==
+    LET nx == Scales[x.u][1]  dx == Scales[x.u][2]
+        ny == Scales[y.u][1]  dy == Scales[y.u][2]
+        r  == Equiv(y, x.u)                                   \* y expressed in x's unit (hundredths)
+        lhs == Abs(r * nx * dy - y.h * ny * dx) * 100        \* |r*sx - hy*sy| * 100*100*dx*dy
+        tol == Kd * (nx * dy * (100 + Abs(y.h)) + 100 * dx * dy)
+    IN  lhs <= tol
+AddWithinTolerance ==
+    LET nx == Scales[x.u][1]  dx == Scales[x.u][2]
+        ny == Scales[y.u][1]  dy == Scales[y.u][2]
+        r  == x.h + Equiv(y, x.u)
+        lhs == Abs(r * nx * dy - (x.h * nx * dy + y.h * ny * dx)) * 100
+        tol == Kd * (nx * dy * (100 + Abs(y.h)) + 100 * dx * dy)
+    IN  lhs <= tol
 \* C01: same-unit conversion is the identity, conversion into an equal-scale unit keeps the amount
 ConvertIdentity == Equiv(x, x.u) = x.h /\ (\A u \in Unit : Scales[u] = Scales[x.u] => Equiv(x, u) = x.h)
 =============================================================================
